@@ -80,6 +80,10 @@ type env struct {
 	gs *drv.GRPCServer
 	// shared, when set, is the one connection every client of this environment uses.
 	shared *grpc.ClientConn
+	// noCensusWait: the next test starts the moment the clients' Stop has returned (the
+	// goroutine census, which waits for exits in progress, is skipped): what the next test
+	// finds on the server is then decided by Stop alone.
+	noCensusWait bool
 }
 
 func (e *env) client() (*fluent.GRIBIClient, func()) {
@@ -137,7 +141,7 @@ func runTest(e *env, tt *compliance.TestSpec) verdict {
 	v := verdict{name: tt.In.ShortName, dur: time.Since(start)}
 	// Every client the test used has been stopped: nothing of the client library may still be
 	// running (bounded wait for exits in progress; tests run one at a time in this process).
-	for k := 0; k < 3000; k++ {
+	for k := 0; k < 3000 && !e.noCensusWait; k++ {
 		v.leaked = v.leaked[:0]
 		for _, g := range mon.InRepo(mon.Dump(), "github.com/openconfig/gribigo/client.") {
 			if !strings.Contains(g.Stack, "verifharness/") {
@@ -352,7 +356,7 @@ func slowTeardown(col *child.Collector, wr *child.Writer, sp *child.Spec) {
 		col.Fatal(err.Error())
 		return
 	}
-	e := &env{gs: drv.Serve(&proxy{inner: main, eofDelay: 3500 * time.Millisecond})}
+	e := &env{gs: drv.Serve(&proxy{inner: main, eofDelay: 3500 * time.Millisecond}), noCensusWait: true}
 	defer e.gs.Stop()
 	seq := []string{
 		"Add IPv4 entry that can be programmed on the server - with RIB ACK",
